@@ -22,6 +22,14 @@ def batches(ns, incl, size=512):
     return [{"fam": "pkglen", "ns": ns[i:i + size], "incl": incl} for i in range(0, len(ns), size)]
 
 
+def q8(g):
+    """a QWord address space descriptor (46 bytes): 1425 of them carry a template's payload past 65535 bytes"""
+    d = g.descriptor("AddrSpace")
+    while d["w"] != 8:
+        d = g.descriptor("AddrSpace")
+    return d
+
+
 def run(ctx):
     rng = vlib.Rng(ctx.seed)
     th = ctx.thorough()
@@ -63,6 +71,11 @@ def run(ctx):
     sites = amlgen.boundary_trees(rng, [(56, 70), (4084, 4100)], nested=False)
     if th:
         sites += amlgen.boundary_trees(rng, [(1048565, 1048580)], kinds=["Package", "Scope", "Method", "BufferData", "If", "While", "Else", "Device", "PowerResource", "VarPackage", "BufferTerm"], nested=False)
+    # size operands change width at 255/256 and 65535/65536 bytes: the enclosing PkgLength must follow
+    sites += amlgen.boundary_trees(rng, [(250, 260), (65530, 65541)], kinds=["BufferData", "Package", "Scope"], nested=False)
+    for n in (0, 1, 5, 6, 11, 12, 256, 1424, 1425, 1426, 1500):
+        g = amlgen.G(rng)
+        sites.append(amlgen.prog(g, {"t": "ResourceTemplate", "ch": [q8(g) for _ in range(n)]}, tag="template/%d" % n))
     for _ in range(300 if th else 60):
         sites.append(amlgen.random_tree(rng, 3))
     fields = []
